@@ -973,4 +973,248 @@ theorem runAct_inv (uris : List (Option Bytes)) (st : St) (v : PVal) (a : Act) (
     | _ => simp [wfAct] at hw
 
 
+/-! ### Part 3e: the whole loop and the statements after it -/
+
+theorem wfSetting_act {uris : List (Option Bytes)} {idx : Nat} {v : PVal} (h : wfSetting uris (idx, v) = true) :
+    wfAct uris (actionOf idx v) v = true := by
+  unfold wfSetting at h
+  unfold actionOf
+  split at h
+  · rename_i hf
+    simp only at hf
+    rw [hf]; rfl
+  · rename_i x g a hf
+    simp only at hf
+    rw [hf]
+    dsimp only
+    split
+    · rfl
+    · exact h
+
+theorem runSettings_inv (uris : List (Option Bytes)) (cfg : List (Nat × PVal)) :
+    ∀ st, cfg.all (wfSetting uris) = true → Inv st → ∃ st', runSettings uris st cfg = .ok st' ∧ Inv st' := by
+  induction cfg with
+  | nil => intro st _ hi; exact ⟨st, rfl, hi⟩
+  | cons kv rest ih =>
+    intro st hw hi
+    simp only [List.all_cons, Bool.and_eq_true] at hw
+    obtain ⟨st1, h1, hi1⟩ := runAct_inv uris st kv.2 (actionOf kv.1 kv.2) (actionOf_ok _ _) (wfSetting_act hw.1) hi
+    obtain ⟨st2, h2, hi2⟩ := ih st1 hw.2 hi1
+    exact ⟨st2, by simp only [runSettings, stepOne, h1, h2], hi2⟩
+
+theorem addNonEmpty_allOf {ctx m : Nat} {parent kids : PForest} {lbl : Bytes} (hp : AllOf G0 ctx parent.intern)
+    (hb : blockOK G0 ctx (labelId (some lbl)) m = true) (hk : AllOf G0 m kids.intern) :
+    AllOf G0 ctx (addNonEmpty parent lbl kids).intern := by
+  unfold addNonEmpty
+  split
+  · exact hp
+  · rw [intern_append]; exact hp.append (block_allOf hb hk)
+
+theorem finalize_valid {st : St} (hi : Inv st) : ValidTree G0 (finalize st).intern := by
+  obtain ⟨hget, hpost, hstage, hinj, hdns, hhb⟩ := top_facts
+  have hg1 : AllOf G0 (ctxOf .httpGet)
+      (if st.recover.isEmpty then st.f .httpGet
+        else addNonEmpty (st.f .httpGet) (b "server") (block (some (b "output")) (dtKids st.recover))).intern := by
+    split
+    · exact hi.blocks .httpGet
+    · rename_i hne
+      rcases hi.recov with he | hd
+      · simp [he] at hne
+      · exact addNonEmpty_allOf (hi.blocks .httpGet) server_fact (block_allOf server_output_fact hd)
+  have hg2 := addNonEmpty_allOf hg1 get_client_fact (hi.blocks .getClient)
+  have hp1 := addNonEmpty_allOf (hi.blocks .profile) hget hg2
+  have hpo := addNonEmpty_allOf (hi.blocks .httpPost) post_client_fact (hi.blocks .postClient)
+  have hp2 := addNonEmpty_allOf hp1 hpost hpo
+  have hp3 := addNonEmpty_allOf hp2 hstage (hi.blocks .stage)
+  have hp4 := addNonEmpty_allOf hp3 hinj (hi.blocks .procInj)
+  have hp5 := addNonEmpty_allOf hp4 hdns (hi.blocks .dns)
+  have hp6 := addNonEmpty_allOf hp5 hhb (hi.blocks .httpBeacon)
+  have hr := root_fact
+  simp only [rootOKb, List.any_eq_true, Bool.and_eq_true, beq_iff_eq] at hr
+  obtain ⟨f, hm, hl, hs⟩ := hr
+  exact ⟨f, C10.idsOK_has G0 ids_G0 hm, hl, derives_block hs hp6⟩
+
+theorem total_and_valid {cfg : List (Nat × PVal)} {uris : List (Option Bytes)} (h : WellFormedCfg cfg uris = true) :
+    ∃ t, fromBeaconConfig cfg uris = .ok t ∧ ValidTree G0 t.intern := by
+  simp only [WellFormedCfg, Bool.and_eq_true] at h
+  obtain ⟨st, hs, hi⟩ := runSettings_inv uris cfg St.init h.2 inv_init
+  exact ⟨finalize st, by simp only [fromBeaconConfig, hs], finalize_valid hi⟩
+
+
+/-! ### Part 4: the generated obligations (definitions; the theorems are in Props/C13.lean)
+
+`Gen.ProfileGen` lists, by introspection of the source as it is now, every name `from_beacon_config` can put into a tree
+together with the block path it is put under.  The checks below walk the generated grammar from the root along the
+block path and look for a production with that label and that number of literals. -/
+
+/-- id of a name of the generated grammar -/
+def idOf (t : C10.Text) : Nat := Grammar.nameCodes.idxOf t
+
+/-- nonterminal of the children of a block labelled `l` standing where `ctx` is expected -/
+def kidsNt (ctx : Nat) (l : C10.Text) : Option Nat :=
+  (G0.forms.find? fun f => f.origin == ctx && label f == idOf l && (blockShape f.items).isSome).bind
+    fun f => blockShape f.items
+
+/-- nonterminal of the children of the root -/
+def rootKids : Option Nat :=
+  (G0.forms.find? fun f => label f == G0.start && (blockShape f.items).isSome).bind fun f => blockShape f.items
+
+/-- nonterminal of the children of the block reached from the root through the labels `path` -/
+def ctxOfPath (path : List C10.Text) : Option Nat :=
+  path.foldl (fun c l => c.bind fun n => kidsNt n l) rootKids
+
+def strId : Nat := idOf [115, 116, 114, 105, 110, 103]
+
+/-- statement `label` with `k` literals exists below the block at `path` -/
+def stmtAt (path : List C10.Text) (l : C10.Text) (k : Nat) : Bool :=
+  match ctxOfPath path with
+  | some n => nodesShapeOK G0 n (idOf l) (List.replicate k strId)
+  | none => false
+
+open Gen.ProfileGen in
+def emittedOptionsOK : Bool :=
+  options.all (fun o => Grammar.optionAlts.contains o.2) &&
+  (match rootKids with
+   | some n => tokShapeOK G0 n (idOf [111, 112, 116, 105, 111, 110]) Grammar.termOPTION [strId]
+   | none => false)
+
+open Gen.ProfileGen in
+def emittedStmtsOK : Bool := stmts.all fun s => stmtAt s.2.1 s.2.2.1 s.2.2.2
+
+open Gen.ProfileGen in
+def emittedBlocksOK : Bool := blocks.all fun p => (ctxOfPath p).isSome
+
+open Gen.ProfileGen in
+def emittedExecuteOK : Bool :=
+  executeEnable.all (fun e => stmtAt executePath e.2 0) && executeSpecial.all (fun e => stmtAt executePath e.2 1)
+
+open Gen.ProfileGen in
+def emittedGateOK : Bool := gateNames.all fun e => stmtAt gatePath e.2 0
+
+/-- the three fixed levels below a data-transform block: `data_transform`, `steps` / `termination`, and the contexts of
+their statements -/
+def dtContexts (dtCtx : Nat) : Option (Nat × Nat) :=
+  match G0.forms.find? (fun f => f.origin == dtCtx && C10.visible f.items matches [.nt _, .nt _]) with
+  | some f =>
+    match C10.visible f.items with
+    | [.nt s, .nt t] =>
+      match G0.forms.find? (fun g => g.origin == s && (blockShape g.items).isSome),
+            G0.forms.find? (fun g => g.origin == t && C10.visible g.items matches [.nt _]) with
+      | some gs, some gt =>
+        match blockShape gs.items, C10.visible gt.items with
+        | some a, [.nt c] => if label f == dtCtx && label gs == s && label gt == t then some (a, c) else none
+        | _, _ => none
+      | _, _ => none
+    | _ => none
+  | none => none
+
+open Gen.ProfileGen in
+def emittedTransformsOK : Bool :=
+  (buildNames.all fun bn =>
+    dtBlocks.all fun d => d.1 != bn.1 ||
+      match ctxOfPath (d.2 ++ [bn.2]) with
+      | some n =>
+        match dtContexts n with
+        | some (a, c) =>
+          Gen.ProfileGen.dtFlagSteps.all (fun l => nodesShapeOK G0 a (idOf l) []) &&
+          Gen.ProfileGen.dtArgSteps.all (fun l => nodesShapeOK G0 a (idOf l) [strId]) &&
+          Gen.ProfileGen.dtFlagTerminations.all (fun l => nodesShapeOK G0 c (idOf l) []) &&
+          Gen.ProfileGen.dtArgTerminations.all (fun l => nodesShapeOK G0 c (idOf l) [strId])
+        | none => false
+      | none => false) &&
+  (match ctxOfPath serverOutput with
+   | some n => (dtContexts n).isSome
+   | none => false)
+
+
+/-! the hand-written tables of the model are the ones the source code has now -/
+
+/-- labels under which the block objects are attached to the profile -/
+def pathOf : Blk → List Bytes
+  | .profile => []
+  | .httpGet => [b "http_get"]
+  | .httpPost => [b "http_post"]
+  | .stage => [b "stage"]
+  | .procInj => [b "process_inject"]
+  | .dns => [b "dns_beacon"]
+  | .httpBeacon => [b "http_beacon"]
+  | .getClient => [b "http_get", b "client"]
+  | .postClient => [b "http_post", b "client"]
+
+def modelOptions : List (Nat × C10.Text) :=
+  actionTable.filterMap fun e => match e.2.2 with
+    | .profOpt n => some (e.1, toText n)
+    | _ => none
+
+/-- (setting, block path, label, number of literals) of every `set_option` / `_pair` call of the model -/
+def modelStmts : List (Nat × List C10.Text × C10.Text × Nat) :=
+  actionTable.flatMap fun e =>
+    let mk (p : List Bytes) (l : Bytes) (n : Nat) := (e.1, p.map toText, toText l, n)
+    match e.2.2 with
+    | .blkOpt k l => [mk (pathOf k) l 1]
+    | .blkConst k l _ => [mk (pathOf k) l 1]
+    | .uris => [mk (pathOf .httpGet) (b "uri") 1]
+    | .request c => [mk (pathOf c) (b "header") 2, mk (pathOf c) (b "parameter") 2]
+    | .perms l _ _ => [mk (pathOf .procInj) l 1]
+    | .injT l => [mk (pathOf .procInj ++ [l]) (b "prepend") 1, mk (pathOf .procInj ++ [l]) (b "append") 1]
+    | .execute => [mk (pathOf .procInj ++ [b "execute"]) (b "createthread_special") 1,
+                   mk (pathOf .procInj ++ [b "execute"]) (b "createremotethread_special") 1]
+    | .allocator => [mk (pathOf .procInj) (b "allocator") 1]
+    | _ => []
+
+def modelLiterals : List (Nat × C10.Text) :=
+  actionTable.flatMap fun e => match e.2.2 with
+    | .blkConst _ _ t => [(e.1, toText t)]
+    | .perms _ _ _ => [(e.1, toText (b "true")), (e.1, toText (b "false"))]
+    | .allocator => [(e.1, toText (b "NtMapViewOfSection")), (e.1, toText (b "VirtualAllocEx"))]
+    | _ => []
+
+def sameSet {α} [BEq α] (x y : List α) : Bool := x.all y.contains && y.all x.contains
+
+
+/-- the Reconstructor obligation of C10 on the table as it is now (also `C10.gen_printWF`) -/
+theorem printWF_G0 : C10.PrintWF G0 = true := by decide +kernel
+
+/-- printing the tree of a derivation gives its token sequence (C10's `print_eq_source`) -/
+theorem print_of_deriv (d : C10.Deriv) (hd : d.WF G0 = true) : C10.printTree G0 (C10.toTree d) = some d.yield := by
+  unfold C10.Deriv.WF at hd
+  simp only [Bool.and_eq_true] at hd
+  unfold C10.printTree C10.toTree C10.Deriv.yield
+  simp only [C10.printKids_parts G0 printWF_G0 hd.2]
+  exact C10.printNode_self G0 printWF_G0 hd.1 hd.2
+
+/-! ### dict semantics of `settings_by_index` -/
+
+theorem dictInsert_keys (kv : Nat × PVal) (d : List (Nat × PVal)) :
+    (dictInsert kv d).map (·.1) = if kv.1 ∈ d.map (·.1) then d.map (·.1) else d.map (·.1) ++ [kv.1] := by
+  induction d with
+  | nil => simp [dictInsert]
+  | cons x xs ih =>
+    simp only [dictInsert]
+    split
+    · rename_i h; simp [h]
+    · rename_i h
+      simp only [List.map_cons, ih, List.mem_cons]
+      have : ¬ kv.1 = x.1 := fun e => h e.symm
+      simp only [this, false_or]
+      split <;> simp
+
+theorem dictInsert_nodup (kv : Nat × PVal) (d : List (Nat × PVal)) (h : (d.map (·.1)).Nodup) :
+    ((dictInsert kv d).map (·.1)).Nodup := by
+  rw [dictInsert_keys]
+  split
+  · exact h
+  · rename_i hn
+    rw [List.nodup_append]
+    exact ⟨h, by simp, by intro a ha b hb; simp at hb; subst hb; exact fun e => hn (e ▸ ha)⟩
+
+theorem settingsByIndex_keys_nodup (tlvs : List (Nat × PVal)) : ((settingsByIndex tlvs).map (·.1)).Nodup := by
+  unfold settingsByIndex
+  suffices ∀ d : List (Nat × PVal), (d.map (·.1)).Nodup → ((tlvs.foldl (fun d kv => dictInsert kv d) d).map (·.1)).Nodup from
+    this [] (by simp)
+  induction tlvs with
+  | nil => intro d h; exact h
+  | cons kv rest ih => intro d h; exact ih _ (dictInsert_nodup kv d h)
+
+
 end C13
